@@ -155,7 +155,7 @@ def antiparallel_quat(pp):
     return (1, 0, 0, 0)
 
 
-def make_case(rng, k, flavor="mixed", pattern=None, big=None):
+def make_case(rng, k, flavor="mixed", pattern=None, big=None, cellkind=None):
     """returns a dict describing one planted search problem"""
     names = list(PATTERNS)
     name = pattern or names[k % len(names)]
@@ -174,6 +174,8 @@ def make_case(rng, k, flavor="mixed", pattern=None, big=None):
     need = diam + 2 * tol
     sep = diam + 2 * tol + 0.3          # distinct groups are farther apart than this: no cross-group candidates
     ckind = CELL_KINDS[(k // 3) % len(CELL_KINDS)] if big is None else ("big" if big else "tric")
+    if cellkind is not None:
+        ckind = cellkind
     need_cell = max(need, sep + 0.2 if n == 1 else need)
     if flavor in ("mixed", "decoys") and n > 1:
         # a near-miss decoy (one atom displaced by up to 8 atol) must not form a genuine occurrence with its own periodic images
@@ -191,6 +193,8 @@ def make_case(rng, k, flavor="mixed", pattern=None, big=None):
     def try_add(points, elements, far_from_origin=False, forced_q=None, corner=None, stretch=False, shear=None):
         for attempt in range(60):
             pose = rng.choice(["random", "random", "axis"])
+            if flavor == "stretched-axis":
+                pose = "axis"
             q = rand_quat(rng, pose)
             if forced_q is not None:
                 q, pose = forced_q, "antiparallel"
@@ -227,6 +231,15 @@ def make_case(rng, k, flavor="mixed", pattern=None, big=None):
                 else:
                     fr[sj] = rng.uniform(min(0.97, 1 + (need + 0.2 - fr[si] * t) / Lj), 0.99)
                 fr = fr - (points @ qrot(q).T).mean(axis=0) @ inv
+            if flavor == "inside-near-face" and shear is None and corner is None:
+                # the whole copy inside the cell, its outermost atom 0.1 - 0.3 A (in fractional terms 0.6 - 2 %) from one face
+                rel = (points @ qrot(q).T) @ inv
+                ax = rng.randrange(3)
+                fr = np.array([rng.uniform(0.25, 0.75) for _ in range(3)])
+                if rng.random() < 0.5:
+                    fr[ax] = rng.uniform(0.980, 0.994) - rel[:, ax].max()
+                else:
+                    fr[ax] = rng.uniform(0.006, 0.020) - rel[:, ax].min()
             cand = points @ qrot(q).T + grid(fr @ cell)
             if stretch and len(points) > 1:
                 # stretch the (unwrapped) copy along its longest pair by 0.8 atol: every atom stays inside the tolerance of the fit
@@ -253,12 +266,12 @@ def make_case(rng, k, flavor="mixed", pattern=None, big=None):
         shear = None
         if ckind.startswith("mono-") and corner is None and forced_q is None and c < 2 and rng.random() < 0.8:
             shear = {"mono-xy": (1, 0), "mono-xz": (2, 0), "mono-yz": (2, 1)}[ckind]
-        r = try_add(pp, el, far_from_origin=(ckind == "big" and c == 0 and corner is None), forced_q=forced_q, corner=corner, stretch=(flavor == "stretched"), shear=shear)
+        r = try_add(pp, el, far_from_origin=(ckind == "big" and c == 0 and corner is None), forced_q=forced_q, corner=corner, stretch=(flavor in ("stretched", "stretched-axis")), shear=shear)
         if r is None:
             continue
         cw, nimg, pose, q = r
         # positional noise <= atol/8 per coordinate, snapped
-        if rng.random() < 0.4 and forced_q is None and flavor != "stretched":
+        if rng.random() < 0.4 and forced_q is None and flavor not in ("stretched", "stretched-axis"):
             cw2 = grid(cw + np.array([[rng.uniform(-tol / 8, tol / 8) for _ in range(3)] for _ in range(n)]))
             ff = cw2 @ inv
             if ff.min() > 1e-9 and ff.max() < 1 - 1e-9:
